@@ -51,6 +51,7 @@ type c15Case struct {
 
 type c15Res struct {
 	Out        string
+	ErrOut     string
 	Status     int
 	Err        error
 	Panic      string
@@ -202,7 +203,7 @@ func (s *c15Session) run(cs c15Case) (res c15Res) {
 		res.Status, res.Err = s.in.ExecuteContext(ctx, cfg)
 	}
 	res.Wall = time.Since(start).Seconds()
-	res.Out = raw.String()
+	res.Out, res.ErrOut = raw.String(), errOut.String()
 	s.mu.Lock()
 	res.Cancelled, res.Ticks, res.TicksAfter = s.cancelled, s.ticks, s.after
 	s.cancelFn = nil
@@ -231,6 +232,18 @@ func c15Guard(f func() c15Res) c15Res {
 var c15Hung int32 // set once a run failed to return: the remaining runs are skipped (the stuck goroutine keeps a core busy)
 
 func c15RunGuard(cs c15Case) c15Res { return c15Guard(func() c15Res { return c15Run(cs) }) }
+
+// c15Disturbed: the run lost output of a command because the machine is so loaded that os/exec's copy goroutine did not
+// finish within WaitDelay (250 ms) of the command's exit ("exec: WaitDelay expired before I/O complete" on stderr, system()
+// returns -1). That happens with and without a context; a comparison of two runs of which one was disturbed is repeated.
+func c15Disturbed(rs ...c15Res) bool {
+	for _, r := range rs {
+		if strings.Contains(r.ErrOut, "WaitDelay expired") {
+			return true
+		}
+	}
+	return false
+}
 
 func c15IsCtxErr(err error) bool {
 	return errors.Is(err, context.Canceled) || errors.Is(err, context.DeadlineExceeded)
@@ -459,7 +472,16 @@ func runC15(c *vh.Ctx) {
 				ref = r
 				continue
 			}
-			if r.Out != ref.Out || r.Status != ref.Status || fmt.Sprint(r.Err) != fmt.Sprint(ref.Err) || r.Ticks != ref.Ticks || r.Panic != ref.Panic {
+			differs := func() bool {
+				return r.Out != ref.Out || r.Status != ref.Status || fmt.Sprint(r.Err) != fmt.Sprint(ref.Err) || r.Ticks != ref.Ticks || r.Panic != ref.Panic
+			}
+			for try := 0; try < 3 && differs() && c15Disturbed(r, ref); try++ {
+				c.Hit("comparison-repeated:command-output-lost-to-WaitDelay-under-load")
+				refCs := cs
+				refCs.Ctx = "none"
+				ref, r = c15RunGuard(refCs), c15RunGuard(cs)
+			}
+			if differs() {
 				c.Fail(vh.Failure{Kind: "oracle", What: "ExecuteContext with a context that is never cancelled differs from Execute", Case: cs,
 					Got:  fmt.Sprintf("status=%d err=%v ticks=%d out=%q", r.Status, r.Err, r.Ticks, c15Trunc(r.Out)),
 					Want: fmt.Sprintf("status=%d err=%v ticks=%d out=%q", ref.Status, ref.Err, ref.Ticks, c15Trunc(ref.Out))})
@@ -548,8 +570,17 @@ func runC15(c *vh.Ctx) {
 			c.Fail(vh.Failure{Kind: "oracle", What: "first call of a sequence: " + msg, Case: cs, Got: fmt.Sprintf("err=%v ticksAfter=%d", r.first.Err, r.first.TicksAfter)})
 			continue
 		}
-		got := fmt.Sprintf("status=%d err=%v ticks=%d out=%q", r.second.Status, r.second.Err, r.second.Ticks, c15Trunc(r.second.Out))
-		want := fmt.Sprintf("status=%d err=%v ticks=%d out=%q", r.fresh.Status, r.fresh.Err, r.fresh.Ticks, c15Trunc(r.fresh.Out))
+		var got, want string
+		for try := 0; ; try++ {
+			got = fmt.Sprintf("status=%d err=%v ticks=%d out=%q", r.second.Status, r.second.Err, r.second.Ticks, c15Trunc(r.second.Out))
+			want = fmt.Sprintf("status=%d err=%v ticks=%d out=%q", r.fresh.Status, r.fresh.Err, r.fresh.Ticks, c15Trunc(r.fresh.Out))
+			if got == want || try == 3 || !c15Disturbed(r.second, r.fresh) {
+				break
+			}
+			c.Hit("comparison-repeated:command-output-lost-to-WaitDelay-under-load")
+			runSeq(i)
+			r = seqOut[i]
+		}
 		if r.second.Panic != "" || got != want || r.second.Err != nil {
 			c.Fail(vh.Failure{Kind: "oracle", What: "a never-cancelled call right after a cancelled one on the same Interpreter differs from the same call on a fresh interpreter (or returned an error)",
 				Case: cs, Got: got + " panic=" + r.second.Panic, Want: want})
